@@ -54,6 +54,6 @@ def convergence(chk, prog):
 if __name__ == '__main__':
     chk = Check('C15')
     prog = load_program()
-    run_property(chk, prog, lambda T: [O.c15_prune, O.c01_frame] if T.kind in ('prune', 'expire-subs') else [])
+    run_property(chk, prog, lambda T: ([O.c15_prune, O.c01_frame] + ([O.c14_expire] if T.kind == 'expire-subs' else [])) if T.kind in ('prune', 'expire-subs') else [])
     convergence(chk, prog)
     chk.finish()
